@@ -80,31 +80,35 @@ Qed.
 
 Ltac sr_side := let Hc := fresh in (intro Hc; vm_compute in Hc; discriminate Hc).
 
+Lemma sig_rel_log_then : forall s e s',
+  fst (fst e) <> LOG_SIGSET -> fst (fst e) <> LOG_SIGDELIVER ->
+  flog s' = flog (add_log s e) -> sigp s' = sigp s -> sig_rel s s'.
+Proof.
+  intros s e s' H1 H2 L G. eapply sig_rel_trans; [apply (sig_rel_log s e H1 H2)|].
+  apply sig_rel_same; [exact L|exact G].
+Qed.
+
+Ltac sig_prims :=
+  first [ solve [intros; apply sig_rel_same; reflexivity]
+        | solve [intros; eapply sig_rel_trans; eassumption]
+        | solve [intros; apply sig_rel_log; assumption]
+        | solve [intros; apply sig_rel_sigset]
+        | solve [intros; match goal with
+                 | |- sig_rel ?s (set_pos (set_rt (add_log ?s ?e) _ _) _) =>
+                     apply (sig_rel_log_then s e); [sr_side|sr_side|reflexivity|reflexivity]
+                 | |- sig_rel ?s (set_rt (add_log ?s ?e) _ _) =>
+                     apply (sig_rel_log_then s e); [sr_side|sr_side|reflexivity|reflexivity]
+                 | |- sig_rel ?s (add_log _ ?e) =>
+                     apply (sig_rel_log_then s e); [sr_side|sr_side|reflexivity|reflexivity]
+                 end] ].
+
 Lemma transition_sig_rel : forall c tp fuel s mi ev s' b,
   transition fuel c tp s mi ev = Ok (s', b) -> sig_rel s s'.
-Proof.
-  intros c tp. apply (transition_P c tp (fun _ => sig_rel)); intros;
-    try (apply sig_rel_same; reflexivity).
-  - eapply sig_rel_trans; eauto.
-  - apply sig_rel_log; assumption.
-  - eapply sig_rel_trans; [apply (sig_rel_log s (LOG_CHANGE, N.of_nat mi, ns)); sr_side|].
-    apply sig_rel_same; reflexivity.
-  - apply sig_rel_sigset.
-Qed.
+Proof. intros c tp. apply (transition_P c tp (fun _ => sig_rel)); sig_prims. Qed.
 
 Lemma decrement_limit_sig_rel : forall c tp s mi s',
   decrement_limit c tp s mi = Ok s' -> sig_rel s s'.
-Proof.
-  intros c tp. apply (decrement_limit_P c tp (fun _ => sig_rel)); intros;
-    try (apply sig_rel_same; reflexivity).
-  - eapply sig_rel_trans; eauto.
-  - apply sig_rel_log; assumption.
-  - eapply sig_rel_trans; [apply (sig_rel_log s (LOG_CHANGE, N.of_nat mi, ns)); sr_side|].
-    apply sig_rel_same; reflexivity.
-  - eapply sig_rel_trans; [apply (sig_rel_log s (LOG_DEC, N.of_nat mi, 0)); sr_side|].
-    apply sig_rel_same; reflexivity.
-  - apply sig_rel_sigset.
-Qed.
+Proof. intros c tp. apply (decrement_limit_P c tp (fun _ => sig_rel)); sig_prims. Qed.
 
 Section Round.
   Variable c : cfg.
